@@ -257,3 +257,22 @@ def table_sorted(tu):
     names = [r[0].encode() for r in rows[:-1]]
     _sorted_cache['v'] = names == sorted(names)
     return _sorted_cache['v']
+
+
+def lin_form(expr):
+    """linear normal form of a rendered pointer/integer expression (every atom is a symbol), or None if it is not a
+    sum/difference of atoms and constants"""
+    from rules.echo import lin_parse
+    class Any(dict):
+        def __contains__(self, k): return True
+        def __getitem__(self, k): return {k: 1}
+    try: return lin_parse(expr, Any())
+    except (KeyError, ValueError): return None
+
+
+def same_value(a, b):
+    """two rendered expressions denote the same value: identical text, or equal linear normal forms
+    ( (((X + 1) - e) - 1) == (X - e) )"""
+    if a == b: return True
+    fa, fb = lin_form(a), lin_form(b)
+    return fa is not None and fa == fb
